@@ -1,0 +1,140 @@
+// Copyright 2020-2025 Buf Technologies, Inc.
+//
+// Licensed under the Apache License, Version 2.0 (the "License");
+// you may not use this file except in compliance with the License.
+// You may obtain a copy of the License at
+//
+//      http://www.apache.org/licenses/LICENSE-2.0
+//
+// Unless required by applicable law or agreed to in writing, software
+// distributed under the License is distributed on an "AS IS" BASIS,
+// WITHOUT WARRANTIES OR CONDITIONS OF ANY KIND, either express or implied.
+// See the License for the specific language governing permissions and
+// limitations under the License.
+
+//go:build verif
+
+package bufimage
+
+// Contracts for the gocv verifier (author ca-C2): the compile step of the build pipeline (C01). Comment-only.
+// Ghost variables c2_* and the trusted contract of protocompile.Compiler.Compile: /verif/specs/C01_pipeline.spec.
+//
+// The two records of a build outcome (verified: plain records).
+//@ func newBuildResult(fileDescriptors, symbols, syntaxUnspecifiedFilenames, filenameToUnusedDependencyFilenames) (r)
+//@   property C01
+//@   ensures r != nil && r.Err == nil && r.Files == fileDescriptors && r.Symbols == symbols && r.SyntaxUnspecifiedFilenames == syntaxUnspecifiedFilenames && r.FilenameToUnusedDependencyFilenames == filenameToUnusedDependencyFilenames
+//@ func newFailedBuildResult(err) (r)
+//@   property C01
+//@   ensures r != nil && r.Err == err && len(r.Files) == 0 && r.Symbols == nil
+//
+//@ func newBuildImageOptions() (r)
+//@   property C01
+//@   ensures r != nil && !r.excludeSourceCodeInfo && !r.noParallelism
+//
+// getBuildResult: ONE compiler call, for exactly the given paths in the given order. The outcome is a success exactly when
+// the compiler returned no error, reported no error, and returned one file per path, named like it, in path order; then the
+// compiled files are handed over unchanged together with the warning bookkeeping. Any failure yields no files. A failed
+// compile with reported errors yields a FileAnnotationSet that holds nothing but diagnostics of reported errors
+// (c2_annotates, /verif/specs/C01_pipeline.spec); an error of the compiler that is neither "invalid source" nor positioned
+// is returned as it is.
+// closure 0 / closure 1 are the error / warning callbacks of the reporter: both only collect, the error callback never
+// aborts the compile (so every error is collected).
+//@ func getBuildResult(ctx, parserAccessorHandler, paths, excludeSourceCodeInfo, noParallelism) (r)
+//@   property C01
+//@   modifies heap, ghost.c2_compileN, ghost.c2_compilePaths, ghost.c2_compileErr, ghost.c2_compiled, ghost.c2_reported, ghost.c2_warned, ghost.c2_positionedErr, ghost.c2_converted
+//@   reveal c2_annotates
+//@   closure 0 ensures never-aborts: r == nil
+//@   closure 0 ensures collects: len(errorsWithPos) == len(old(errorsWithPos)) + 1 && errorsWithPos[len(errorsWithPos) - 1] == errorWithPos && (forall k int :: 0 <= k && k < len(old(errorsWithPos)) ==> errorsWithPos[k] == old(errorsWithPos)[k])
+//@   closure 1 ensures collects: len(warningErrorsWithPos) == len(old(warningErrorsWithPos)) + 1 && warningErrorsWithPos[len(warningErrorsWithPos) - 1] == errorWithPos && (forall k int :: 0 <= k && k < len(old(warningErrorsWithPos)) ==> warningErrorsWithPos[k] == old(warningErrorsWithPos)[k])
+//@   ghost before "compiledFiles, err := compiler.Compile" c2_positionedErr := nil
+//@   ghost after "compiledFiles, err := compiler.Compile" c2_compileErr := err
+//@   ghost after "compiledFiles, err := compiler.Compile" c2_compiled := compiledFiles
+//@   ghost after "compiledFiles, err := compiler.Compile" c2_reported := errorsWithPos
+//@   ghost after "compiledFiles, err := compiler.Compile" c2_warned := warningErrorsWithPos
+//@   ghost before "fileAnnotation, err := bufprotocompile.FileAnnotationForErrorWithPos(" c2_positionedErr := errorWithPos
+//@   ensures never-nil: r != nil
+//@   ensures one-compile-of-exactly-the-paths: ghost.c2_compileN == old(ghost.c2_compileN) + 1 && ghost.c2_compilePaths == paths
+//@   ensures success-exactly-when-clean: (r.Err == nil) <==> (ghost.c2_compileErr == nil && len(ghost.c2_reported) == 0 && len(ghost.c2_compiled) == len(paths) && (forall i int :: 0 <= i && i < len(paths) ==> cast(linker.File, ghost.c2_compiled[i]).Path() == paths[i]))
+//@   ensures no-files-on-failure: r.Err != nil ==> len(r.Files) == 0 && r.Symbols == nil
+//@   ensures compiled-files-handed-over: r.Err == nil ==> r.Files == ghost.c2_compiled && r.Symbols != nil
+//@   ensures compiled-files-linked: r.Err == nil ==> (forall i int :: 0 <= i && i < len(r.Files) && r.Files[i] != nil ==> g_linked(r.Files[i]))
+//@   ensures warnings-do-not-fail: ghost.c2_compileErr == nil && len(ghost.c2_reported) == 0 && len(ghost.c2_compiled) == len(paths) && (forall i int :: 0 <= i && i < len(paths) ==> cast(linker.File, ghost.c2_compiled[i]).Path() == paths[i]) ==> r.Err == nil
+//@   ensures syntax-unspecified-from-warnings: r.Err == nil ==> (forall q string :: q in r.SyntaxUnspecifiedFilenames <==> (exists w int :: 0 <= w && w < len(ghost.c2_warned) && cast(reporter.ErrorWithPos, ghost.c2_warned[w]).Unwrap() == parser.ErrNoSyntax && cast(reporter.ErrorWithPos, ghost.c2_warned[w]).GetPosition().Filename == q))
+//@   ensures unused-imports-only-from-warnings: r.Err == nil ==> (forall p string, q string :: p in r.FilenameToUnusedDependencyFilenames && q in r.FilenameToUnusedDependencyFilenames[p] ==> (exists w int :: 0 <= w && w < len(ghost.c2_warned) && cast(reporter.ErrorWithPos, ghost.c2_warned[w]).GetPosition().Filename == p && cast(linker.ErrorUnusedImport, cast(reporter.ErrorWithPos, ghost.c2_warned[w]).Unwrap()).UnusedImport() == q))
+//@   ensures nil-map-has-no-keys: r.Err == nil ==> (forall p string, q string :: p in r.FilenameToUnusedDependencyFilenames && r.FilenameToUnusedDependencyFilenames[p] == nil ==> !(q in r.FilenameToUnusedDependencyFilenames[p]))
+//@   ensures invalid-source-gives-annotations: ghost.c2_compileErr == reporter.ErrInvalidSource && len(ghost.c2_reported) > 0 && (forall i int :: 0 <= i && i < len(ghost.c2_reported) ==> cast(reporter.ErrorWithPos, cast(reporter.ErrorWithPos, ghost.c2_reported[i])).GetPosition().Filename == "" || second(normalpath.NormalizeAndValidate(cast(reporter.ErrorWithPos, cast(reporter.ErrorWithPos, ghost.c2_reported[i])).GetPosition().Filename)) == nil) ==> r.Err != nil && typeOf(r.Err) == typeId(*bufanalysis.fileAnnotationSet) && (forall a int :: 0 <= a && a < len(cast(*bufanalysis.fileAnnotationSet, r.Err).fileAnnotations) ==> (exists i int :: 0 <= i && i < len(ghost.c2_reported) && c2_annotates(cast(*bufanalysis.fileAnnotationSet, r.Err).fileAnnotations[a], cast(reporter.ErrorWithPos, ghost.c2_reported[i]))))
+//@   ensures all-reported-errors-converted: ghost.c2_compileErr == reporter.ErrInvalidSource && len(ghost.c2_reported) > 0 ==> ghost.c2_converted == ghost.c2_reported
+//@   ensures other-error-as-is: ghost.c2_compileErr != nil && ghost.c2_compileErr != reporter.ErrInvalidSource && ghost.c2_positionedErr == nil ==> r.Err == ghost.c2_compileErr
+//@   ensures positioned-error-is-the-compile-error: ghost.c2_positionedErr != nil ==> ghost.c2_positionedErr == ghost.c2_compileErr && ghost.c2_compileErr != reporter.ErrInvalidSource
+//@   ensures positioned-error-gives-its-annotation: ghost.c2_positionedErr != nil && (cast(reporter.ErrorWithPos, ghost.c2_positionedErr).GetPosition().Filename == "" || second(normalpath.NormalizeAndValidate(cast(reporter.ErrorWithPos, ghost.c2_positionedErr).GetPosition().Filename)) == nil) ==> r.Err != nil && typeOf(r.Err) == typeId(*bufanalysis.fileAnnotationSet) && (forall a int :: 0 <= a && a < len(cast(*bufanalysis.fileAnnotationSet, r.Err).fileAnnotations) ==> c2_annotates(cast(*bufanalysis.fileAnnotationSet, r.Err).fileAnnotations[a], cast(reporter.ErrorWithPos, ghost.c2_positionedErr)))
+//@   loop 0 invariant names-match: forall i int :: 0 <= i && i < $i ==> compiledFiles[i].Path() == paths[i]
+//@   loop 1 invariant unused: forall p string, q string :: p in filenameToUnusedDependencyFilenames && q in filenameToUnusedDependencyFilenames[p] ==> (exists w int :: 0 <= w && w < $i && warningErrorsWithPos[w].GetPosition().Filename == p && cast(linker.ErrorUnusedImport, warningErrorsWithPos[w].Unwrap()).UnusedImport() == q)
+//@   loop 1 invariant inner-sets-exist: forall p string :: p in filenameToUnusedDependencyFilenames ==> filenameToUnusedDependencyFilenames[p] != nil
+//@   loop 1 invariant syntax: forall q string :: q in syntaxUnspecifiedFilenames <==> (exists w int :: 0 <= w && w < $i && warningErrorsWithPos[w].Unwrap() == parser.ErrNoSyntax && warningErrorsWithPos[w].GetPosition().Filename == q)
+//@   canary ensures r.Err != nil
+//@   canary ensures r.Err == nil
+//
+// buildImage: the pipeline. No image without exactly one compile of the (non-empty) list of target file paths in the sorted
+// order of bufmodule.GetTargetFileInfos; a compile that failed or reported an error yields NO image, and the error is the one
+// of getBuildResult (the FileAnnotationSet of the reported errors / the compiler's error as it is); an image is produced only
+// from a clean compile. (g_wellFormedLink is the TRUSTED fact about the linker's output that getImage needs; it is passed on
+// as a precondition, see /verif/specs/C01.spec.)
+// The deferred profiling call `defer slogext.DebugProfile(logger)()` goes through a function VALUE (whole-heap havoc at exit
+// in the model), so everything that reads the image (heap) is stated at the final `return image, nil`.
+//@ func buildImage(ctx, logger, moduleReadBucket, excludeSourceCodeInfo, noParallelism) (r, err)
+//@   property C01
+//@   modifies heap, ghost.c2_compileN, ghost.c2_compilePaths, ghost.c2_compileErr, ghost.c2_compiled, ghost.c2_reported, ghost.c2_warned, ghost.c2_positionedErr, ghost.c2_converted
+//@   reveal c2_annotates
+//@   requires link-well-formed: g_wellFormedLink()
+//@   ensures image-or-error: (r == nil) <==> (err != nil)
+//@   ensures not-self-contained-rejected: !moduleReadBucket.ShouldBeSelfContained() ==> err != nil && ghost.c2_compileN == old(ghost.c2_compileN)
+//@   ensures at-most-one-compile: ghost.c2_compileN == old(ghost.c2_compileN) || ghost.c2_compileN == old(ghost.c2_compileN) + 1
+//@   ensures no-compile-leaves-the-record: ghost.c2_compileN == old(ghost.c2_compileN) ==> ghost.c2_compileErr == old(ghost.c2_compileErr) && ghost.c2_reported == old(ghost.c2_reported) && ghost.c2_positionedErr == old(ghost.c2_positionedErr)
+//@   ensures no-image-without-a-compile: err == nil ==> ghost.c2_compileN == old(ghost.c2_compileN) + 1
+//@   ensures compiler-gets-sorted-non-empty-paths: ghost.c2_compileN == old(ghost.c2_compileN) + 1 ==> len(ghost.c2_compilePaths) > 0 && (forall a int, b int :: 0 <= a && a < b && b < len(ghost.c2_compilePaths) ==> ghost.c2_compilePaths[a] <= ghost.c2_compilePaths[b])
+//@   ensures compile-failure-yields-no-image: ghost.c2_compileN == old(ghost.c2_compileN) + 1 && (ghost.c2_compileErr != nil || len(ghost.c2_reported) > 0) ==> r == nil && err != nil
+//@   ensures image-only-from-clean-compile: err == nil ==> ghost.c2_compileErr == nil && len(ghost.c2_reported) == 0 && len(ghost.c2_compiled) == len(ghost.c2_compilePaths) && (forall i int :: 0 <= i && i < len(ghost.c2_compilePaths) ==> cast(linker.File, ghost.c2_compiled[i]).Path() == ghost.c2_compilePaths[i])
+//@   ensures reported-errors-become-the-diagnostics: ghost.c2_compileN == old(ghost.c2_compileN) + 1 && ghost.c2_compileErr == reporter.ErrInvalidSource && len(ghost.c2_reported) > 0 && (forall i int :: 0 <= i && i < len(ghost.c2_reported) ==> cast(reporter.ErrorWithPos, cast(reporter.ErrorWithPos, ghost.c2_reported[i])).GetPosition().Filename == "" || second(normalpath.NormalizeAndValidate(cast(reporter.ErrorWithPos, cast(reporter.ErrorWithPos, ghost.c2_reported[i])).GetPosition().Filename)) == nil) ==> err != nil && typeOf(err) == typeId(*bufanalysis.fileAnnotationSet)
+//@   ensures all-reported-errors-converted: ghost.c2_compileN == old(ghost.c2_compileN) + 1 && ghost.c2_compileErr == reporter.ErrInvalidSource && len(ghost.c2_reported) > 0 ==> ghost.c2_converted == ghost.c2_reported
+//@   ensures other-compile-error-as-is: ghost.c2_compileN == old(ghost.c2_compileN) + 1 && ghost.c2_compileErr != nil && ghost.c2_compileErr != reporter.ErrInvalidSource && ghost.c2_positionedErr == nil ==> err == ghost.c2_compileErr
+//@   assert before "buildResult := getBuildResult(" compiler-gets-exactly-the-target-paths: len(paths) == len(targetFileInfos) && len(paths) > 0 && (forall i int :: 0 <= i && i < len(paths) ==> paths[i] == targetFileInfos[i].Path())
+//@   assert before "return nil, buildResult.Err" diagnostics-are-the-reported-errors: ghost.c2_compileErr == reporter.ErrInvalidSource && len(ghost.c2_reported) > 0 && (forall i int :: 0 <= i && i < len(ghost.c2_reported) ==> cast(reporter.ErrorWithPos, cast(reporter.ErrorWithPos, ghost.c2_reported[i])).GetPosition().Filename == "" || second(normalpath.NormalizeAndValidate(cast(reporter.ErrorWithPos, cast(reporter.ErrorWithPos, ghost.c2_reported[i])).GetPosition().Filename)) == nil) ==> (forall a int :: 0 <= a && a < len(cast(*bufanalysis.fileAnnotationSet, buildResult.Err).fileAnnotations) ==> (exists i int :: 0 <= i && i < len(ghost.c2_reported) && c2_annotates(cast(*bufanalysis.fileAnnotationSet, buildResult.Err).fileAnnotations[a], cast(reporter.ErrorWithPos, ghost.c2_reported[i]))))
+//@   assert before "return image, nil" image-non-empty: len(cast(*image, image).files) > 0
+//@   assert before "return image, nil" each-path-once: forall a int, b int :: 0 <= a && a < b && b < len(cast(*image, image).files) ==> cast(*image, image).files[a].Path() != cast(*image, image).files[b].Path()
+//@   assert before "return image, nil" imports-first: forall k int, d int :: 0 <= k && k < len(cast(*image, image).files) && 0 <= d && d < len(g_deps(cast(*image, image).files[k])) ==> (exists j int :: 0 <= j && j < k && cast(*image, image).files[j].Path() == g_deps(cast(*image, image).files[k])[d])
+//@   assert before "return image, nil" every-target-present: forall t int :: 0 <= t && t < len(paths) ==> (exists j int :: 0 <= j && j < len(cast(*image, image).files) && cast(*image, image).files[j].Path() == paths[t])
+//@   assert before "return image, nil" exactly-targets-are-non-imports: forall k int :: 0 <= k && k < len(cast(*image, image).files) ==> (!cast(*image, image).files[k].IsImport() <==> (exists t int :: 0 <= t && t < len(paths) && paths[t] == cast(*image, image).files[k].Path()))
+//@   assert before "return image, nil" closed-nothing-else: forall k int :: 0 <= k && k < len(cast(*image, image).files) ==> (exists t int :: 0 <= t && t < len(paths) && paths[t] == cast(*image, image).files[k].Path()) || g_neededBy(cast(*image, image).files, len(cast(*image, image).files), k)
+//@   assert before "return image, nil" syntax-unspecified-from-warnings: forall k int :: 0 <= k && k < len(cast(*image, image).files) ==> (cast(*image, image).files[k].IsSyntaxUnspecified() <==> (exists w int :: 0 <= w && w < len(ghost.c2_warned) && cast(reporter.ErrorWithPos, ghost.c2_warned[w]).Unwrap() == parser.ErrNoSyntax && cast(reporter.ErrorWithPos, ghost.c2_warned[w]).GetPosition().Filename == cast(*image, image).files[k].Path()))
+//@   canary ensures err != nil
+//@   canary ensures err == nil
+//
+// The two build options set exactly their own flag (closure 0 is the returned option).
+//@ func WithExcludeSourceCodeInfo() (r)
+//@   property C01
+//@   ensures r != nil
+//@   closure 0 ensures sets-only-its-flag: buildImageOptions.excludeSourceCodeInfo && buildImageOptions.noParallelism == old(buildImageOptions.noParallelism)
+//@ func WithNoParallelism() (r)
+//@   property C01
+//@   ensures r != nil
+//@   closure 0 ensures sets-only-its-flag: buildImageOptions.noParallelism && buildImageOptions.excludeSourceCodeInfo == old(buildImageOptions.excludeSourceCodeInfo)
+//
+// BuildImage: the exported entry point; whatever the options are, the outcome obeys the verdict clauses of buildImage
+// (the options are applied through function values: which flags reach buildImage is not followed).
+//@ func BuildImage(ctx, logger, moduleReadBucket, options) (r, err)
+//@   property C01
+//@   modifies heap, ghost.c2_compileN, ghost.c2_compilePaths, ghost.c2_compileErr, ghost.c2_compiled, ghost.c2_reported, ghost.c2_warned, ghost.c2_positionedErr, ghost.c2_converted
+//@   requires link-well-formed: g_wellFormedLink()
+//@   ensures image-or-error: (r == nil) <==> (err != nil)
+//@   ensures not-self-contained-rejected: !moduleReadBucket.ShouldBeSelfContained() ==> err != nil && ghost.c2_compileN == old(ghost.c2_compileN)
+//@   ensures at-most-one-compile: ghost.c2_compileN == old(ghost.c2_compileN) || ghost.c2_compileN == old(ghost.c2_compileN) + 1
+//@   ensures no-compile-leaves-the-record: ghost.c2_compileN == old(ghost.c2_compileN) ==> ghost.c2_compileErr == old(ghost.c2_compileErr) && ghost.c2_reported == old(ghost.c2_reported) && ghost.c2_positionedErr == old(ghost.c2_positionedErr)
+//@   ensures no-image-without-a-compile: err == nil ==> ghost.c2_compileN == old(ghost.c2_compileN) + 1
+//@   ensures compiler-gets-sorted-non-empty-paths: ghost.c2_compileN == old(ghost.c2_compileN) + 1 ==> len(ghost.c2_compilePaths) > 0 && (forall a int, b int :: 0 <= a && a < b && b < len(ghost.c2_compilePaths) ==> ghost.c2_compilePaths[a] <= ghost.c2_compilePaths[b])
+//@   ensures compile-failure-yields-no-image: ghost.c2_compileN == old(ghost.c2_compileN) + 1 && (ghost.c2_compileErr != nil || len(ghost.c2_reported) > 0) ==> r == nil && err != nil
+//@   ensures image-only-from-clean-compile: err == nil ==> ghost.c2_compileErr == nil && len(ghost.c2_reported) == 0 && len(ghost.c2_compiled) == len(ghost.c2_compilePaths) && (forall i int :: 0 <= i && i < len(ghost.c2_compilePaths) ==> cast(linker.File, ghost.c2_compiled[i]).Path() == ghost.c2_compilePaths[i])
+//@   ensures reported-errors-become-the-diagnostics: ghost.c2_compileN == old(ghost.c2_compileN) + 1 && ghost.c2_compileErr == reporter.ErrInvalidSource && len(ghost.c2_reported) > 0 && (forall i int :: 0 <= i && i < len(ghost.c2_reported) ==> cast(reporter.ErrorWithPos, cast(reporter.ErrorWithPos, ghost.c2_reported[i])).GetPosition().Filename == "" || second(normalpath.NormalizeAndValidate(cast(reporter.ErrorWithPos, cast(reporter.ErrorWithPos, ghost.c2_reported[i])).GetPosition().Filename)) == nil) ==> err != nil && typeOf(err) == typeId(*bufanalysis.fileAnnotationSet)
+//@   ensures all-reported-errors-converted: ghost.c2_compileN == old(ghost.c2_compileN) + 1 && ghost.c2_compileErr == reporter.ErrInvalidSource && len(ghost.c2_reported) > 0 ==> ghost.c2_converted == ghost.c2_reported
+//@   ensures other-compile-error-as-is: ghost.c2_compileN == old(ghost.c2_compileN) + 1 && ghost.c2_compileErr != nil && ghost.c2_compileErr != reporter.ErrInvalidSource && ghost.c2_positionedErr == nil ==> err == ghost.c2_compileErr
+//@   canary ensures err != nil
+//@   canary ensures err == nil
